@@ -59,7 +59,7 @@ type Case struct {
 	Val2 []FieldV `json:"val2,omitempty"`
 }
 
-const rule = "struct types generated with reflect.StructOf from a spec: 1..6 fields per level, each a dictionary name of the message's application (dict.Default, the per-file embedded dictionaries, generated dictionaries with all 18 type names) x shape {datatype type | another datatype type that converts losslessly (string kinds among themselves, wider integer / float) | lossless native Go type} x {T, *T, []T, []*T}, diam.AVP / *diam.AVP / []*diam.AVP / []diam.AVP, struct / *struct / []struct / []*struct for grouped AVPs to depth 3, embedded untagged struct, embedded tagged struct x tag form {avp:\"N\", avp:\"N,omitempty\", each alone / after / before a json key}; no code twice per struct level; slices optionally with spare capacity; optionally a second value sharing the slices of the first is marshalled into another message afterwards (the first message must not change); optionally (1 in 3) a second, independently generated value of the type goes through the SAME message afterwards (Marshal, then Unmarshal must reproduce it); the message marshalled into is fresh from NewMessage or (3 in 8) already used: carries AVPs added with AddAVP, or the same / a zero value of the struct was marshalled into it before; values incl. zero numbers, empty strings, nil pointers, nil and empty slices; non-trivial = at least 2 fields in total and at least one pointer / slice / nested / embedded shape; distinct by hash of the JSON form of the case"
+const rule = "struct types generated with reflect.StructOf from a spec: 1..6 fields per level, each a dictionary name of the message's application (dict.Default, the per-file embedded dictionaries, generated dictionaries with all 18 type names) x shape {datatype type | another datatype type that converts losslessly (string kinds among themselves, wider integer / float) | lossless native Go type} x {T, *T, []T, []*T}, diam.AVP / *diam.AVP / []*diam.AVP / []diam.AVP, struct / *struct / []struct / []*struct for grouped AVPs to depth 3, embedded untagged struct, embedded tagged struct x tag form {avp:\"N\", avp:\"N,omitempty\", each alone / after / before a json key, and avp:\"N\" next to a json key that has an omitempty option of its own}; no code twice per struct level; slices optionally with spare capacity; optionally a second value sharing the slices of the first is marshalled into another message afterwards (the first message must not change); optionally (1 in 3) a second, independently generated value of the type goes through the SAME message afterwards (Marshal, then Unmarshal must reproduce it); the message marshalled into is fresh from NewMessage or (3 in 8) already used: carries AVPs added with AddAVP, or the same / a zero value of the struct was marshalled into it before; values incl. zero numbers, empty strings, nil pointers, nil and empty slices; non-trivial = at least 2 fields in total and at least one pointer / slice / nested / embedded shape; distinct by hash of the JSON form of the case"
 
 var prop = ev.Register(&ev.Prop[Case]{
 	ID: "C18", Name: "struct", Rule: rule,
@@ -729,7 +729,7 @@ func TestC18CanonicalAVPField(t *testing.T) {
 // (b) omitempty next to a second tag key.
 func TestC18CanonicalOmitemptySecondKey(t *testing.T) {
 	zero := FieldV{Vals: []gen.Val{{T: gen.TUnsigned32}}}
-	for _, tf := range []string{TagPre, TagPreOmit, TagPost, TagPostOmit} {
+	for _, tf := range []string{TagPre, TagPreOmit, TagPost, TagPostOmit, TagPostJOmit, TagPreJOmit} {
 		tf := tf
 		t.Run(tf, func(t *testing.T) {
 			prop.One(t, one(FieldT{AVP: "Origin-State-Id", DT: gen.TUnsigned32, Kind: KScalar, Go: "uint32", Tag: tf}, zero))
